@@ -927,6 +927,9 @@ def _worker(args):
                 spec = random_spec(rng, kind, weighted, labelkind)
                 if j % 10 == 9:
                     spec["hmeta_replaced"] = True
+                    if j % 20 == 19:
+                        # user metadata that happens to use the constructor's key names, with a value contradicting the object
+                        spec["hmeta"] = dict(spec["hmeta"], weighted=not weighted, type="user supplied")
                 if j % 4 == 1:
                     spec["detour"] = True
                 _rt(sink, rep, spec, tmp)
